@@ -261,6 +261,9 @@ static void case_c09(rng_t *r, ctx_t *c) {
     int64_t pos = first;
     int nev = (int) rng_range(r, 1, 6);
     char evs[200] = ""; size_t en = 0;
+    /* a write of no samples, before anything else and at another id than the first real write: it starts nothing */
+    int empty_first = rng_chance(r, 1, 5);
+    if (empty_first) { op_t *o = prog_add(&p, OP_FSR); o->id = 5; o->sid = pos + (rng_chance(r, 1, 2) ? rng_range(r, 1, 500) : -rng_range(r, 1, 500)); o->n = 0; o->vseed = rng_u64(r); }
     /* initial run */
     {
         int64_t n0 = rng_range(r, 1, 3 * spd);
